@@ -20,16 +20,18 @@
    TLC checks that the implementation-shaped protocol stays inside the language the real traces are judged against. *)
 EXTENDS Integers, Sequences, FiniteSets, TLC, RSyncProtoAbs
 
-CONSTANTS NT, NFiles, NLinks, MayCrash, Fix_LinksToAll, Fix_ServeAll, Fix_PairByRequest
+CONSTANTS NT, NFiles, NLinks, MayCrash, Fix_LinksToAll, Fix_ServeAll, Fix_PairByRequest, Fix_NoPayloadCache
 
-VARIABLES need, spc, si, toR, rq, chans, linksLeft,
+VARIABLES need, same, cache, spc, si, toR, rq, chans, linksLeft,
           rpc, ri, modified, rk, written, gotlinks, cb, abs
 
-vars == <<need, spc, si, toR, rq, chans, linksLeft, rpc, ri, modified, rk, written, gotlinks, cb, abs>>
+vars == <<need, same, cache, spc, si, toR, rq, chans, linksLeft, rpc, ri, modified, rk, written, gotlinks, cb, abs>>
 T == 1..NT
 
 Init ==
   /\ need \in [T -> SUBSET (1..NFiles)]
+  /\ same \in [T -> SUBSET (1..NFiles)] /\ \A t \in T : same[t] \subseteq need[t]     \* requested with a checksum that equals the source's
+  /\ cache = [i \in {} |-> 0]
   /\ spc = "structure" /\ si = 1 /\ toR = [t \in T |-> <<>>] /\ rq = <<>> /\ chans = T /\ linksLeft = NLinks
   /\ rpc = [t \in T |-> "structure"] /\ ri = [t \in T |-> 0] /\ modified = [t \in T |-> <<>>] /\ rk = [t \in T |-> 1]
   /\ written = [t \in T |-> <<>>]          \* sequence of <<file the target stored the data under, file the data came from>>
@@ -38,39 +40,43 @@ Init ==
 
 \* ------------------------------------------------------------------ sender
 \* the CHANNEL_CLOSE(_ERROR) of a failed target has arrived: its endmarker is queued and channel.send() raises from now on
-Closed(t) == rpc[t] = "crashed" /\ \E i \in 1..Len(rq) : rq[i] = <<t, "eof", 0>>
+Closed(t) == rpc[t] = "crashed" /\ \E i \in 1..Len(rq) : rq[i] = <<t, "eof", 0, 0>>
 SSendFails ==   \* _broadcast / _send_item / _process_link hit a closed channel: OSError out of send()
   /\ \/ spc = "structure" /\ si <= NFiles /\ \E t \in chans : Closed(t)
      \/ spc = "serve" /\ chans # {} /\ rq # <<>> /\ Head(rq)[2] \in {"send", "links"} /\ Closed(Head(rq)[1])
   /\ spc' = "raised"
   /\ abs' = IF spc = "serve" THEN Step(Step(abs, Ev("get", Head(rq)[1], Head(rq)[2], Head(rq)[3], 0)), Ev("raise", 0, "", 0, 0))
             ELSE Step(abs, Ev("raise", 0, "", 0, 0))
-  /\ UNCHANGED <<need, si, toR, rq, chans, linksLeft, rpc, ri, modified, rk, written, gotlinks, cb>>
+  /\ UNCHANGED <<need, same, cache, si, toR, rq, chans, linksLeft, rpc, ri, modified, rk, written, gotlinks, cb>>
 SBcast ==       \* _send_directory_structure: one (mode, mtime, size) tuple per file to every channel; links only fill _links
   /\ spc = "structure" /\ si <= NFiles /\ ~\E t \in chans : Closed(t)
   /\ toR' = [t \in T |-> Append(toR[t], <<"file", si>>)]
   /\ si' = si + 1
   /\ abs' = Step(abs, Ev("walk", 0, "file", si, 0))
-  /\ UNCHANGED <<need, spc, rq, chans, linksLeft, rpc, ri, modified, rk, written, gotlinks, cb>>
+  /\ UNCHANGED <<need, same, cache, spc, rq, chans, linksLeft, rpc, ri, modified, rk, written, gotlinks, cb>>
 SWalkLinks ==   \* the links of the walk (announced as None, nothing for the target to do)
   /\ spc = "structure" /\ si = NFiles + 1
   /\ spc' = "serve"
   /\ abs' = RunFrom(abs, [i \in 1..NLinks |-> Ev("walk", 0, "link", NFiles + i, 0)], 1)
-  /\ UNCHANGED <<need, si, toR, rq, chans, linksLeft, rpc, ri, modified, rk, written, gotlinks, cb>>
+  /\ UNCHANGED <<need, same, cache, si, toR, rq, chans, linksLeft, rpc, ri, modified, rk, written, gotlinks, cb>>
 
 Req == Head(rq)
-SGetSend ==
+SGetSend ==     \* _send_item: read the file; data, or None when the target's checksum equals the file's ("not really modified")
   /\ spc = "serve" /\ chans # {} /\ rq # <<>> /\ Req[2] = "send" /\ ~Closed(Req[1])
-  /\ LET t == Req[1]  p == Req[3]  ans == IF Fix_PairByRequest THEN p ELSE NFiles IN
-     /\ toR' = [toR EXCEPT ![t] = Append(@, <<"data", ans>>)]
-     /\ abs' = Step(Step(abs, Ev("get", t, "send", p, 0)), Ev("item", t, "", ans, 0))
+  /\ LET t == Req[1]  p == Req[3]  withsum == Req[4] = 1
+         file == IF Fix_PairByRequest THEN p ELSE NFiles
+         fresh == IF withsum THEN 0 ELSE file                        \* 0 stands for None
+         ans == IF ~Fix_NoPayloadCache /\ p \in DOMAIN cache THEN cache[p] ELSE fresh      \* mutant: the payload of the first answer is reused
+     IN /\ toR' = [toR EXCEPT ![t] = Append(@, <<"data", ans>>)]
+        /\ cache' = IF p \in DOMAIN cache THEN cache ELSE (p :> fresh) @@ cache
+        /\ abs' = Step(Step(abs, Ev("get", t, "send", p, Req[4])), Ev("item", t, "", file, IF ans = 0 THEN 0 ELSE 1))
   /\ rq' = Tail(rq)
-  /\ UNCHANGED <<need, spc, si, chans, linksLeft, rpc, ri, modified, rk, written, gotlinks, cb>>
+  /\ UNCHANGED <<need, same, spc, si, chans, linksLeft, rpc, ri, modified, rk, written, gotlinks, cb>>
 SGetNote ==     \* list_done / ack: progress callbacks only
   /\ spc = "serve" /\ chans # {} /\ rq # <<>> /\ Req[2] \in {"list_done", "ack"}
   /\ abs' = Step(abs, Ev("get", Req[1], Req[2], Req[3], 0))
   /\ rq' = Tail(rq)
-  /\ UNCHANGED <<need, spc, si, toR, chans, linksLeft, rpc, ri, modified, rk, written, gotlinks, cb>>
+  /\ UNCHANGED <<need, same, cache, spc, si, toR, chans, linksLeft, rpc, ri, modified, rk, written, gotlinks, cb>>
 SGetLinks ==
   /\ spc = "serve" /\ chans # {} /\ rq # <<>> /\ Req[2] = "links" /\ ~Closed(Req[1])
   /\ LET t == Req[1]  n == IF Fix_LinksToAll THEN NLinks ELSE linksLeft IN
@@ -78,7 +84,7 @@ SGetLinks ==
      /\ abs' = Step(Step(abs, Ev("get", t, "links", 0, 0)), Ev("links", t, "", 0, n))
   /\ linksLeft' = IF Fix_LinksToAll THEN linksLeft ELSE 0
   /\ rq' = Tail(rq)
-  /\ UNCHANGED <<need, spc, si, chans, rpc, ri, modified, rk, written, gotlinks, cb>>
+  /\ UNCHANGED <<need, same, cache, spc, si, chans, rpc, ri, modified, rk, written, gotlinks, cb>>
 SGetDone ==
   /\ spc = "serve" /\ chans # {} /\ rq # <<>> /\ Req[2] = "done"
   /\ LET t == Req[1] IN
@@ -86,7 +92,7 @@ SGetDone ==
      /\ abs' = Step(Step(abs, Ev("get", t, "done", 0, 0)), Ev("cb", t, "", 0, 0))
      \* channel.waitclose(): the target's code has ended by then (it sent "done" as its last action)
   /\ rq' = Tail(rq)
-  /\ UNCHANGED <<need, spc, si, toR, linksLeft, rpc, ri, modified, rk, written, gotlinks>>
+  /\ UNCHANGED <<need, same, cache, spc, si, toR, linksLeft, rpc, ri, modified, rk, written, gotlinks>>
 SGetEof ==
   /\ spc = "serve" /\ chans # {} /\ rq # <<>> /\ Req[2] = "eof"
   /\ LET t == Req[1] IN
@@ -94,50 +100,51 @@ SGetEof ==
                          /\ abs' = Step(Step(abs, Ev("get", t, "eof", 0, 0)), Ev("raise", 0, "", 0, 0))
      ELSE /\ UNCHANGED spc /\ abs' = Step(abs, Ev("get", t, "eof", 0, 0))
   /\ rq' = Tail(rq)
-  /\ UNCHANGED <<need, si, toR, chans, linksLeft, rpc, ri, modified, rk, written, gotlinks, cb>>
+  /\ UNCHANGED <<need, same, cache, si, toR, chans, linksLeft, rpc, ri, modified, rk, written, gotlinks, cb>>
 SReturn ==
   /\ spc = "serve"
   /\ IF Fix_ServeAll THEN chans = {} ELSE chans # T
   /\ spc' = "returned"
   /\ abs' = Step(abs, Ev("return", 0, "", 0, 0))
-  /\ UNCHANGED <<need, si, toR, rq, chans, linksLeft, rpc, ri, modified, rk, written, gotlinks, cb>>
+  /\ UNCHANGED <<need, same, cache, si, toR, rq, chans, linksLeft, rpc, ri, modified, rk, written, gotlinks, cb>>
 
 \* ----------------------------------------------------------------- target t
 Msg(t) == Head(toR[t])
 RStruct(t) ==   \* receive_directory_structure at one file entry
   /\ rpc[t] = "structure" /\ ri[t] < NFiles /\ toR[t] # <<>> /\ Msg(t)[1] = "file"
   /\ LET i == Msg(t)[2] IN
-     IF i \in need[t] THEN /\ rq' = Append(rq, <<t, "send", i>>) /\ modified' = [modified EXCEPT ![t] = Append(@, i)]
+     IF i \in need[t] THEN /\ rq' = Append(rq, <<t, "send", i, IF i \in same[t] THEN 1 ELSE 0>>) /\ modified' = [modified EXCEPT ![t] = Append(@, i)]
      ELSE UNCHANGED <<rq, modified>>
   /\ ri' = [ri EXCEPT ![t] = @ + 1] /\ toR' = [toR EXCEPT ![t] = Tail(@)]
-  /\ UNCHANGED <<need, spc, si, chans, linksLeft, rpc, rk, written, gotlinks, cb, abs>>
+  /\ UNCHANGED <<need, same, cache, spc, si, chans, linksLeft, rpc, rk, written, gotlinks, cb, abs>>
 RListDone(t) ==
   /\ rpc[t] = "structure" /\ ri[t] = NFiles
-  /\ rq' = Append(rq, <<t, "list_done", 0>>) /\ rpc' = [rpc EXCEPT ![t] = "data"]
-  /\ UNCHANGED <<need, spc, si, toR, chans, linksLeft, ri, modified, rk, written, gotlinks, cb, abs>>
+  /\ rq' = Append(rq, <<t, "list_done", 0, 0>>) /\ rpc' = [rpc EXCEPT ![t] = "data"]
+  /\ UNCHANGED <<need, same, cache, spc, si, toR, chans, linksLeft, ri, modified, rk, written, gotlinks, cb, abs>>
 RData(t) ==     \* for path in modifiedfiles: data = channel.receive(); ack; write
   /\ rpc[t] = "data" /\ rk[t] <= Len(modified[t]) /\ toR[t] # <<>> /\ Msg(t)[1] = "data"
-  /\ written' = [written EXCEPT ![t] = Append(@, <<modified[t][rk[t]], Msg(t)[2]>>)]
-  /\ rq' = Append(rq, <<t, "ack", modified[t][rk[t]]>>)
+  \* None: nothing is written, the target keeps what it has - which equals the source only if it really sent a matching checksum
+  /\ written' = [written EXCEPT ![t] = Append(@, <<modified[t][rk[t]], IF Msg(t)[2] = 0 THEN (IF modified[t][rk[t]] \in same[t] THEN modified[t][rk[t]] ELSE -1) ELSE Msg(t)[2]>>)]
+  /\ rq' = Append(rq, <<t, "ack", modified[t][rk[t]], 0>>)
   /\ rk' = [rk EXCEPT ![t] = @ + 1] /\ toR' = [toR EXCEPT ![t] = Tail(@)]
-  /\ UNCHANGED <<need, spc, si, chans, linksLeft, rpc, ri, modified, gotlinks, cb, abs>>
+  /\ UNCHANGED <<need, same, cache, spc, si, chans, linksLeft, rpc, ri, modified, gotlinks, cb, abs>>
 RLinksReq(t) ==
   /\ rpc[t] = "data" /\ rk[t] > Len(modified[t])
-  /\ rq' = Append(rq, <<t, "links", 0>>) /\ rpc' = [rpc EXCEPT ![t] = "links"]
-  /\ UNCHANGED <<need, spc, si, toR, chans, linksLeft, ri, modified, rk, written, gotlinks, cb, abs>>
+  /\ rq' = Append(rq, <<t, "links", 0, 0>>) /\ rpc' = [rpc EXCEPT ![t] = "links"]
+  /\ UNCHANGED <<need, same, cache, spc, si, toR, chans, linksLeft, ri, modified, rk, written, gotlinks, cb, abs>>
 RLink(t) ==
   /\ rpc[t] = "links" /\ toR[t] # <<>> /\ Msg(t)[1] = "link"
   /\ gotlinks' = [gotlinks EXCEPT ![t] = @ + 1] /\ toR' = [toR EXCEPT ![t] = Tail(@)]
-  /\ UNCHANGED <<need, spc, si, rq, chans, linksLeft, rpc, ri, modified, rk, written, cb, abs>>
+  /\ UNCHANGED <<need, same, cache, spc, si, rq, chans, linksLeft, rpc, ri, modified, rk, written, cb, abs>>
 RDone(t) ==     \* the completion marker: send "done", the code ends, the channel closes (endmarker reaches the callback)
   /\ rpc[t] = "links" /\ toR[t] # <<>> /\ Msg(t)[1] = "end"
-  /\ rq' = rq \o << <<t, "done", 0>>, <<t, "eof", 0>> >>
+  /\ rq' = rq \o << <<t, "done", 0, 0>>, <<t, "eof", 0, 0>> >>
   /\ rpc' = [rpc EXCEPT ![t] = "finished"] /\ toR' = [toR EXCEPT ![t] = Tail(@)]
-  /\ UNCHANGED <<need, spc, si, chans, linksLeft, ri, modified, rk, written, gotlinks, cb, abs>>
+  /\ UNCHANGED <<need, same, cache, spc, si, chans, linksLeft, ri, modified, rk, written, gotlinks, cb, abs>>
 RCrash(t) ==
   /\ MayCrash /\ rpc[t] \in {"structure", "data", "links"}
-  /\ rpc' = [rpc EXCEPT ![t] = "crashed"] /\ rq' = Append(rq, <<t, "eof", 0>>)
-  /\ UNCHANGED <<need, spc, si, toR, chans, linksLeft, ri, modified, rk, written, gotlinks, cb, abs>>
+  /\ rpc' = [rpc EXCEPT ![t] = "crashed"] /\ rq' = Append(rq, <<t, "eof", 0, 0>>)
+  /\ UNCHANGED <<need, same, cache, spc, si, toR, chans, linksLeft, ri, modified, rk, written, gotlinks, cb, abs>>
 
 Sender == SSendFails \/ SBcast \/ SWalkLinks \/ SGetSend \/ SGetNote \/ SGetLinks \/ SGetDone \/ SGetEof \/ SReturn
 Target(t) == RStruct(t) \/ RListDone(t) \/ RData(t) \/ RLinksReq(t) \/ RLink(t) \/ RDone(t)
